@@ -104,13 +104,52 @@ def _gen_lib_case(ch: Chooser) -> dict:
         tuples.append(vals)
     form = ch.draw(len(IMPORT_FORMS))
     cwd = ch.pick(["repo", "scratch", "root"])
+    # the importing program's own declarations: what a library function computes must not depend
+    # on the names the importer happens to use - including names the library uses for parameters
+    bystanders = []
+    if ch.chance(1, 2):
+        pool = _library_param_names()
+        taken = {i["name"] for i in inputs} | {"result"}
+        for _ in range(ch.rint(1, 3)):
+            nm = ch.pick(pool)
+            if nm in taken:
+                continue
+            taken.add(nm)
+            bystanders.append([nm, ch.i32_biased(-9, 60)])
     return {"prop": PROP, "part": "lib", "fn": fn, "args": args, "inputs": inputs, "ints": ints,
-            "tuples": tuples, "import_form": form, "cwd": cwd,
+            "tuples": tuples, "import_form": form, "cwd": cwd, "bystanders": bystanders,
             "options": gen.gen_options(ch, allow_poles=False), "plan": gen.gen_plan(ch)}
+
+
+_PARAM_NAMES: list = []
+
+
+def _library_param_names() -> list:
+    """Parameter names of the functions in lib/math.facto of the current tree (plus a few plain
+    names), as candidates for the importer's own int declarations."""
+    if not _PARAM_NAMES:
+        import re
+
+        names = {"x", "y", "n", "v"}
+        funcs = set()
+        try:
+            with open(os.path.join(seam.REPO, "lib", "math.facto"), encoding="utf-8") as fh:
+                for m in re.finditer(r"func\s+(\w+)\s*\(([^)]*)\)", fh.read()):
+                    funcs.add(m.group(1))
+                    for part in m.group(2).split(","):
+                        part = part.strip().split()
+                        if len(part) == 2:
+                            names.add(part[1])
+        except OSError:
+            pass
+        _PARAM_NAMES.extend(sorted(names - funcs))
+    return _PARAM_NAMES
 
 
 def _lib_source(case) -> str:
     lines = [IMPORT_FORMS[case["import_form"]]]
+    for nm, v in case.get("bystanders") or []:
+        lines.append(f"int {nm} = {v};")
     for i in case["inputs"]:
         lines.append(f'Signal {i["name"]} = ("{i["type"]}", {i["init"]});')
     lines.append(f'Signal result = {case["fn"]}({", ".join(case["args"])});')
